@@ -6,6 +6,7 @@ configuration's name sets constructed in different insertion orders, several pas
 process; file names, sha256 of contents and the `hash` property must agree everywhere, and
 `hash` must equal an MD5 of the UTF-8 contents recomputed with hashlib.
 """
+import copy
 import json
 import os
 import random
@@ -93,6 +94,11 @@ def gen_cases(rng: random.Random, count: int):
         if len(cases) % 3 == 0:
             enc['copyright'] = rng.choice(['© é ü 漢字', 'naïve\n\u2028sep', 'Ünïcødé ✓'])
         cases.append({'doc': M.to_json(gen.model), 'cfg': enc})
+        if len(cases) % 4 == 1 and len(cases) < count:
+            # a second revision of the same model: every name is the same, the externs mean
+            # other C++ types - built in the same processes as the first, in either order
+            revised = json.loads(json.dumps(cases[-1]['doc']).replace('::vx::T', '::vx::Rev2_T'))
+            cases.append({'doc': revised, 'cfg': copy.deepcopy(enc), 'revision_of': len(cases) - 1})
     return cases
 
 
@@ -168,6 +174,8 @@ def main(tier: str) -> int:
         for k in range(2):
             kind = AMBIENTS[len(jobs) % len(AMBIENTS)]
             cwd, env_extra = ambients[kind]
+            if len(jobs) % 2:
+                env_extra = dict(env_extra, VERIF_REVERSE_CASES='1')
             if (len(jobs) // len(AMBIENTS)) % 2:
                 env_extra = dict(env_extra, VERIF_SHARED_BUILDER='1')
                 shared_builder_jobs.append((hs, (hs * 7 + k) if k else 'none'))
@@ -176,7 +184,7 @@ def main(tier: str) -> int:
     reference = {}
     run.require('executions_compared', 'md5_recomputed', 'cases_with_non_ascii_contents',
                 'cases_with_relative_model_filename', 'cases_with_mixed_requires_semantics',
-                'children_with_one_builder_for_all_cases',
+                'children_with_one_builder_for_all_cases', 'cases_that_are_a_second_revision_of_another',
                 *[f'child_in_ambient_{kind}' for kind in AMBIENTS])
     for (_p, hashseed, order_seed, _cwd, _env), res in run.pmap(_worker, jobs):
         if 'error' in res:
@@ -219,6 +227,7 @@ def main(tier: str) -> int:
         run.case(common.digest(case), explicit_sets(case['cfg']) >= 2,
                  {'cfg': case['cfg']} if idx < 3 else None)
     run.extra['executions_per_case'] = len(jobs) * 2
+    run.count('cases_that_are_a_second_revision_of_another', sum(1 for c in cases if 'revision_of' in c))
     run.count('cases_with_mixed_requires_semantics', sum(1 for c in cases if mixed_requires(c)))
     run.count('cases_with_relative_model_filename',
               sum(1 for c in cases if c['cfg'].get('filename') and not os.path.isabs(c['cfg']['filename'])))
@@ -231,7 +240,8 @@ def main(tier: str) -> int:
              'directory in which the configured model file name exists as a regular file; as a '
              'symbolic link to a differently named file; other HOME/USER/TZ/locale and a clock '
              '400 days ahead), every other group of processes serving all its cases from one '
-             'Builder object; all executions of a case must agree on file names, sha256(contents) '
+             'Builder object, every other process building the cases in reverse order (some '
+             'cases are a second revision of their neighbour: same names, other extern types); all executions of a case must agree on file names, sha256(contents) '
              'and hash; evaluations = cases; non-trivial = a selection naming >=2 ports',
         assumptions=['equal inputs = same JSON document and same configuration encoding'])
 
